@@ -5,6 +5,8 @@ import EaselModel.Dist.GevThm
 import EaselModel.Dist.SpecialFamThm
 import EaselModel.Dist.MixThm
 import EaselModel.Dist.IntegralThm
+import EaselModel.Dist.MixLogThm
+import EaselModel.Dist.BisectThm
 import EaselModel.Dist.Edge
 /-! # C10 — each distribution's pdf, cdf, survival, log and inverse functions agree
 
@@ -276,6 +278,58 @@ theorem hxp_cdf_add_surv_partial (x mu : ℝ) (qs : List (ℝ × ℝ)) (hq : ∀
 example : |Mix.hxp_cdf (1 : ℝ) 0 [(0.25, 1), (0.75, 2)] + Mix.hxp_surv (1 : ℝ) 0 [(0.25, 1), (0.75, 2)] -
     ([(0.25, 1), (0.75, 2)].map Prod.fst).sum| ≤ 2.5e-17 * ([((0.25 : ℝ), (1 : ℝ)), (0.75, 2)].map Prod.fst).sum :=
   (hxp_cdf_add_surv_partial 1 0 _ (by intro qp h; simp at h; rcases h with h | h <;> subst h <;> norm_num)).2 (by norm_num)
+
+/-- mixture log versions: `esl_vec_DLogSum` (hand model) IS `log Σ exp v_i` whenever all entries lie in its 500-window
+    below the maximum (what it drops otherwise is below `e^{-500}` of the largest term), and with positive coefficients
+    `esl_hxp_logsurv = log esl_hxp_surv` exactly on `x ≥ μ`.
+    `_partial`: `logcdf`/`logpdf` of the hyperexponential inherit the components' `1e-8` bounds (not chained here), the
+    out-of-window remainder bound and the GEV mixture are monitored only. -/
+theorem mixture_log_versions_partial :
+    (∀ vec : List ℝ, vec ≠ [] → Mix.dmax vec ≠ (Num.inf : ℝ) → (∀ v ∈ vec, Mix.dmax vec - 500 < v) →
+      Mix.dlogsum vec = log ((vec.map exp).sum)) ∧
+    (∀ (x mu : ℝ) (qs : List (ℝ × ℝ)), mu ≤ x → qs ≠ [] → (∀ qp ∈ qs, 0 < qp.1) →
+      Mix.dmax (qs.map fun qp => log qp.1 + esl_exp_logsurv x mu qp.2) ≠ (Num.inf : ℝ) →
+      (∀ v ∈ (qs.map fun qp => log qp.1 + esl_exp_logsurv x mu qp.2),
+        Mix.dmax (qs.map fun qp => log qp.1 + esl_exp_logsurv x mu qp.2) - 500 < v) →
+      Mix.hxp_logsurv x mu qs = log (Mix.hxp_surv x mu qs)) :=
+  ⟨MixLogThm.dlogsum_eq, fun _ _ qs hx hne hq hfin hwin => MixLogThm.hxp_logsurv_eq hx qs hne hq hfin hwin⟩
+
+/-! ## Gumbel-vs-GEV distance inside the Gumbel branch -/
+
+/-- For `α ≠ 0` with `|α y| < 1e-12` the code evaluates the Gumbel `log cdf = -e^{-y}`; the GEV with that `α` has
+    exponent `s = log(1+αy)/α` with `|s - y| ≤ 2e-12·|y|`, and its `log cdf` differs from the returned value by at most
+    `4e-12·|y|·e^{-y}`, i.e. relative `4e-12·|y|` (`|y| ≤ 1e11`). -/
+theorem gev_gumbel_branch_distance {x μ l α : ℝ} (hα : α ≠ 0) (hg : |l * (x - μ) * α| < 1e-12) :
+    |log (1 + α * (l * (x - μ))) / α - l * (x - μ)| ≤ 2e-12 * |l * (x - μ)| ∧
+      (|l * (x - μ)| ≤ 1e11 →
+        |esl_gev_logcdf x μ l α - log (gevCdf μ l α x)| ≤ 4e-12 * |l * (x - μ)| * exp (-(l * (x - μ)))) :=
+  ⟨GevThm.gumbel_branch_exponent hα hg, GevThm.gumbel_branch_logcdf_dist hα hg⟩
+
+example : |esl_gev_logcdf (2 : ℝ) 0 1 1e-13 - log (gevCdf 0 1 1e-13 2)| ≤ 4e-12 * |(1 : ℝ) * (2 - 0)| * exp (-((1 : ℝ) * (2 - 0))) :=
+  (gev_gumbel_branch_distance (by norm_num) (by norm_num [abs_of_pos])).2 (by norm_num [abs_of_pos])
+
+/-! ## Bracketing + bisection inverses (`esl_sxp_invcdf`, `esl_gam_invcdf`, `esl_hxp_invcdf`, `esl_mixgev_invcdf`)
+
+Hand model `Dist/Bisect.lean` (each `do … while` recursing on fuel; executed bit-for-bit against the C functions).
+Whatever the loops do, a returned value `r` lies inside a bracket `[a, b]` with `cdf a ≤ p ≤ cdf b`; for a monotone cdf
+this squeezes `cdf r` between two cdf values that bracket `p`.  Termination is not claimed (`none` = fuel exhausted);
+that the final bracket is narrow (relative width `1e-6`) is checked by the L0 monitors. -/
+
+theorem bisection_inverses_bracket {p μ l τ r : ℝ} (hp : 0 ≤ p) :
+    (Bisect.invcdfRight (fun x => esl_sxp_cdf x μ l τ) p μ = some r →
+      ∃ a b, μ ≤ a ∧ a ≤ r ∧ r ≤ b ∧ esl_sxp_cdf a μ l τ ≤ p ∧ p ≤ esl_sxp_cdf b μ l τ) ∧
+    (0 ≤ τ / l → Bisect.invcdfGam (fun x => esl_gam_cdf x μ l τ) p μ l τ = some r →
+      ∃ a b, μ ≤ a ∧ a ≤ r ∧ r ≤ b ∧ esl_gam_cdf a μ l τ ≤ p ∧ p ≤ esl_gam_cdf b μ l τ) ∧
+    (∀ qs : List (ℝ × ℝ), Mix.hxp_cdf μ μ qs ≤ p → Bisect.invcdfRight (fun x => Mix.hxp_cdf x μ qs) p μ = some r →
+      ∃ a b, μ ≤ a ∧ a ≤ r ∧ r ≤ b ∧ Mix.hxp_cdf a μ qs ≤ p ∧ p ≤ Mix.hxp_cdf b μ qs) ∧
+    (∀ (qs : List (ℝ × ℝ × ℝ × ℝ)) (m : ℝ), Bisect.invcdfMix (fun x => Mix.mixgev_cdf x qs) p m = some r →
+      ∃ a b, a ≤ r ∧ r ≤ b ∧ Mix.mixgev_cdf a qs ≤ p ∧ p ≤ Mix.mixgev_cdf b qs) :=
+  ⟨fun h => BisectThm.invcdfRight_brackets (cdf := fun x => esl_sxp_cdf x μ l τ)
+      (by show esl_sxp_cdf μ μ l τ ≤ p; rw [Edge.sxp_cdf_below (le_refl μ)]; simpa using hp) h,
+    fun hlt h => BisectThm.invcdfGam_brackets (cdf := fun x => esl_gam_cdf x μ l τ)
+      (by show esl_gam_cdf μ μ l τ ≤ p; rw [Edge.gam_cdf_below (by simp)]; simpa using hp) hlt h,
+    fun qs h0 h => BisectThm.invcdfRight_brackets (cdf := fun x => Mix.hxp_cdf x μ qs) h0 h,
+    fun qs m h => BisectThm.invcdfMix_brackets (cdf := fun x => Mix.mixgev_cdf x qs) h⟩
 
 /-! ## The pdf integrates to cdf differences -/
 
